@@ -17,3 +17,8 @@ verus! {
 pub assume_specification<'a> [<String as From<&'a str>>::from] (s: &str) -> (r: String)
     ensures r@ == s@;
 }
+verus! {
+// T-FMT (opaque form): a formatted string whose content no property depends on (error/log text)
+#[verifier::external_body]
+pub fn opaque_string() -> String { String::new() }
+}
